@@ -20,7 +20,7 @@ from qrv.build import r3
 from qrv.oracles import units as U
 
 LEVEL = "exploration"
-RULE = ("(a) exhaustive: all 11x11 ordered pairs of energy units x 15 accessor pairs x values {positive scalar, array; zero/negative except for nm}, "
+RULE = ("(a) exhaustive: all 11x11 ordered pairs of energy units x 16 accessor pairs x values {positive scalar, array; zero/negative except for nm}, "
         "all 7x7 length-unit pairs; (b) random nested context programs (depth 1-5, energy/frequency/length contexts, exception at a random depth, "
         "optionally caught in the middle); (c) ~40 public builder/calculator entry points called inside each of several unit contexts at depth 1 and 2 "
         "under the frame-level leak detector; (d) energy-valued call arguments: the same physical coupling cut-off handed to Hamiltonian.remove_cutoff_coupling / "
@@ -29,6 +29,7 @@ RULE = ("(a) exhaustive: all 11x11 ordered pairs of energy units x 15 accessor p
         "detector: every library frame they reach must return with the units it was entered with (a failing test is not a verdict). distinct = (accessor, u1, u2) / (program shape) / (entry point, context); non-trivial iff u1 != u2, "
         "program depth >= 2, or the entry point was entered under a non-internal unit.")
 RULE = RULE + " Round-6 workloads: entry points include copy, sums, in-place sums and transforms of every bath-function type (Overdamped, high-temperature, Underdamped) x {CorrelationFunction, SpectralDensity}."
+RULE = RULE + " Round-7 workloads: accessor pairs include Molecule.set_diabatic_coupling/get_diabatic_coupling (read under two units in a row on the same object)."
 ASSUMPTIONS = ["Manager.convert_frequency_* has no context that activates it and no managed accessor: not claimed",
                "results that depend on the active units (e.g. thermal states requested inside a 1/cm context) are outside the statement; "
                "only accessor round trips and the units active after a call are judged",
